@@ -5,11 +5,16 @@ From GV Require Import Base Ty Conf Val Plan.
 Import ListNotations.
 Open Scope N_scope.
 
-Inductive outcome (A : Type) := Done (a : A) | Panicked | OutOfFuel | Stuck.
-Arguments Done {A} a. Arguments Panicked {A}. Arguments OutOfFuel {A}. Arguments Stuck {A}.
+Inductive outcome (A : Type) := Done (a : A) | Panicked | OutOfFuel | Stuck | Errored (er : errv).
+Arguments Done {A} a. Arguments Panicked {A}. Arguments OutOfFuel {A}. Arguments Stuck {A}. Arguments Errored {A} er.
 
 Definition obind {A B} (o : outcome A) (f : A -> outcome B) : outcome B :=
-  match o with Done a => f a | Panicked => Panicked | OutOfFuel => OutOfFuel | Stuck => Stuck end.
+  match o with Done a => f a | Panicked => Panicked | OutOfFuel => OutOfFuel | Stuck => Stuck | Errored er => Errored er end.
+(* an error raised below the target position d gets d as path element *)
+Definition tag {A} (d : delem) (o : outcome A) : outcome A :=
+  match o with Errored er => Errored (push_elem d er) | x => x end.
+Definition retag {A B} (o : outcome A) : outcome B :=
+  match o with Done _ => Stuck | Panicked => Panicked | OutOfFuel => OutOfFuel | Stuck => Stuck | Errored er => Errored er end.
 Notation "'let*' x ':=' o 'in' k" := (obind o (fun x => k)) (at level 200, x pattern, o at level 100, k at level 200).
 
 (* selector evaluation: Some None = a nil pointer was crossed *)
@@ -39,6 +44,7 @@ Definition eval_sel (s : selector) (src : val) : option val :=
     | Some None => match w with WNone => None | _ => Some VNil end
     | Some (Some v) => match w with WAddr => Some (VPtr ALIAS v) | _ => Some v end
     end
+  | SelMeth _ _ _ _ _ _ => None        (* needs the evaluator: sel_eval below *)
   end.
 
 (* does executing an Assign plan on this source value access its l-value at all?  (for i := range src
@@ -52,17 +58,38 @@ Fixpoint touches (a : aplan) (src : val) {struct a} : bool :=
   | AStruct fs =>
       existsb (fun f => match f with
                         | FSkip => false
-                        | FAssign sel g a' => match eval_sel sel src with
-                                              | Some s => negb (g && is_zero s) && touches a' s
-                                              | None => true
-                                              end
+                        | FAssign _ sel g a' => match eval_sel sel src with
+                                                | Some s => negb (g && is_zero s) && touches a' s
+                                                | None => true
+                                                end
+                        | FCall _ _ _ _ => true
                         end) fs
   | AIfNotNil a' => match src with VNil => false | VPtr _ s => touches a' s | _ => true end
+  | ADerefTgt _ => true
   end.
+
+(* wrap mode of a method: 2 wrapErrorsUsing, 1 wrapErrors, 0 none *)
+Definition wrap_mode (m : gmethod) : N :=
+  match c_WrapErrorsUsing (m_common (g_conf m)) with
+  | _ :: _ => 2
+  | [] => if c_WrapErrors (m_common (g_conf m)) then 1 else 0
+  end.
+
+(* context values of the running method, by type *)
+Definition ctxs := list (ty * val).
+Definition ctx_get (cx : ctxs) (t : ty) : val :=
+  match find (fun kv => ty_eqb (fst kv) t) cx with Some kv => snd kv | None => VNil end.
+Definition ctx_has (cx : ctxs) (t : ty) : bool := existsb (fun kv => ty_eqb (fst kv) t) cx.
+Definition args_ok (cx : ctxs) (args : list argsrc) : bool :=
+  forallb (fun a => match a with ArgCtx t => ctx_has cx t | _ => true end) args.
+(* the value-producing body of a method and whether its errors are wrapped when they leave it *)
+Definition body_plan (m : gmethod) : option (vplan * bool) :=
+  match g_body m with Some (BVal p) => Some (p, true) | Some (BTail p) => Some (p, false) | _ => None end.
 
 Section eval.
   Variable e : env.
   Variable M : table.
+  Variable F : ftable.
 
   (* helpers parameterised by the recursive calls (guard-checker friendly, DESIGN 3.2) *)
   Section inner.
@@ -70,21 +97,41 @@ Section eval.
     Variable ea : aplan -> val -> val -> N -> outcome (val * N).
 
     (* for i := range src { a(lhs[i]) } *)
-    Fixpoint each_assign (a : aplan) (srcs olds : list val) (st : N) : outcome (list val * N) :=
+    Fixpoint each_assign (i : N) (a : aplan) (srcs olds : list val) (st : N) : outcome (list val * N) :=
       match srcs, olds with
       | [], _ => Done (olds, st)
-      | s :: sr, o :: orr => let* (v, st1) := ea a s o st in
-                             let* (vs, st2) := each_assign a sr orr st1 in Done (v :: vs, st2)
+      | s :: sr, o :: orr => let* (v, st1) := tag (DIndex i) (ea a s o st) in
+                             let* (vs, st2) := each_assign (i + 1) a sr orr st1 in Done (v :: vs, st2)
       | s :: sr, [] => if touches a s then Panicked   (* index out of range *)
-                       else each_assign a sr [] st
+                       else each_assign (i + 1) a sr [] st
       end.
 
     Fixpoint each_entry (k v : vplan) (kvs : list (val * val)) (st : N) : outcome (list (val * val) * N) :=
       match kvs with
       | [] => Done ([], st)
-      | (k0, v0) :: r => let* (k1, st1) := ev k k0 st in
-                         let* (v1, st2) := ev v v0 st1 in
+      | (k0, v0) :: r => let kz := match k0 with VBasic z => z | _ => 0%Z end in
+                         let* (k1, st1) := tag (DKey kz) (ev k k0 st) in
+                         let* (v1, st2) := tag (DKey kz) (ev v v0 st1) in
                          let* (rs, st3) := each_entry k v r st2 in Done ((k1, v1) :: rs, st3)
+      end.
+
+    (* the selected source part of a struct field; a path ending in a method calls it on the value reached *)
+    Definition sel_eval (sel : selector) (src : val) (st : N) : outcome (val * N) :=
+      match sel with
+      | SelMeth steps rd fi args fl w =>
+        let recv : option (option val) :=
+          match walk steps src with
+          | Some (Some v) => if rd then match v with VNil => Some None | VPtr _ x => Some (Some x) | _ => None end
+                             else Some (Some v)
+          | x => x
+          end in
+        match recv with
+        | None => Stuck
+        | Some None => match w with WNone => Stuck | _ => Done (VNil, st) end
+        | Some (Some rv) => let* (r, st1) := ev (PCallX (CFn fi) args fl) rv st in
+                            match w with WAddr => Done (VPtr st1 r, st1 + 1) | _ => Done (r, st1) end
+        end
+      | _ => match eval_sel sel src with None => Stuck | Some s => Done (s, st) end
       end.
 
     Fixpoint each_field (fs : list fplan) (src : val) (olds : list val) (st : N) : outcome (list val * N) :=
@@ -94,10 +141,14 @@ Section eval.
         let* (v, st1) :=
           match f with
           | FSkip => Done (o, st)
-          | FAssign sel guard a =>
-            match eval_sel sel src with
-            | None => Stuck
-            | Some s => if guard && is_zero s then Done (o, st) else ea a s o st
+          | FAssign name sel guard a =>
+            tag (DField name) (let* (s, st0) := sel_eval sel src st in
+                               if guard && is_zero s then Done (o, st0) else ea a s o st0)
+          | FCall name sel guard v =>
+            match sel with
+            | None => tag (DField name) (ev v VNil st)
+            | Some sl => tag (DField name) (let* (s, st0) := sel_eval sl src st in
+                                            if guard && is_zero s then Done (o, st0) else ev v s st0)
             end
           end in
         let* (vs, st2) := each_field fr src orr st1 in Done (v :: vs, st2)
@@ -105,51 +156,82 @@ Section eval.
       end.
   End inner.
 
-  Fixpoint eval_v (fuel : nat) (p : vplan) (src : val) (st : N) {struct fuel} : outcome (val * N) :=
+  Fixpoint eval_v (fuel : nat) (cx : ctxs) (p : vplan) (src : val) (st : N) {struct fuel} : outcome (val * N) :=
     match fuel with
     | O => OutOfFuel
     | S f =>
       match p with
       | PId => Done (src, st)
       | PShare => Done (src, st)
-      | PRef alias v => let* (r, st1) := eval_v f v src st in
+      | PRef alias v => let* (r, st1) := eval_v f cx v src st in
                         if alias then Done (VPtr ALIAS r, st1) else Done (VPtr st1 r, st1 + 1)
       | PCall m => match nth_error M (N.to_nat m) with
-                   | Some mt => match g_body mt with
-                                | Some (BVal p') => eval_v f p' src st
-                                | _ => Stuck
+                   | Some mt => match body_plan mt with
+                                | Some (p', wr) => match eval_v f [] p' src st with
+                                                   | Errored er => Errored (if wr then finalize (wrap_mode mt) er else er)
+                                                   | o => o
+                                                   end
+                                | None => Stuck
                                 end
                    | None => Stuck
                    end
-      | POfAssign t a => eval_a f a src (zero e ZFUEL t) st
+      | PCallX c args _ =>
+        if negb (args_ok cx args) then Stuck else
+        let ctx_sum := fold_left (fun acc a => match a with ArgCtx t => (acc + leaf0 (ctx_get cx t))%Z | _ => acc end) args 0%Z in
+        match c with
+        | CFn fi =>
+          match nth_error F (N.to_nat fi) with
+          | Some fd =>
+            let sl := match fd_src fd with Some _ => leaf0 src | None => 0%Z end in
+            if fd_err fd && fn_fails fi sl then Errored {| er_fn := fi; er_wraps := []; er_pending := [] |}
+            else let '(v, st1, _) := mark e 60 (fd_tgt fd) (mark_token fi sl ctx_sum) st in Done (v, st1)
+          | None => Stuck
+          end
+        | CMeth m =>
+          match nth_error M (N.to_nat m) with
+          | Some mt => match body_plan mt with
+                       | Some (p', wr) =>
+                         match eval_v f (map (fun t => (t, ctx_get cx t)) (g_ctx mt)) p' src st with
+                         | Errored er => Errored (if wr then finalize (wrap_mode mt) er else er)
+                         | o => o
+                         end
+                       | None => Stuck
+                       end
+          | None => Stuck
+          end
+        end
+      | POfAssign t a => eval_a f cx a src (zero e ZFUEL t) st
+      | PInit init to_ptr a =>
+        let* (v0, st1) := eval_v f cx init src st in
+        if to_ptr then eval_a f cx a src (VPtr st1 v0) (st1 + 1) else eval_a f cx a src v0 st1
       | PMakeList elem a =>
         match src with
-        | VArr vs => eval_a f a src (VSlice st (repeat (zero e ZFUEL elem) (length vs))) (st + 1)
+        | VArr vs => eval_a f cx a src (VSlice st (repeat (zero e ZFUEL elem) (length vs))) (st + 1)
         | _ => Stuck
         end
       end
     end
-  with eval_a (fuel : nat) (a : aplan) (src old : val) (st : N) {struct fuel} : outcome (val * N) :=
+  with eval_a (fuel : nat) (cx : ctxs) (a : aplan) (src old : val) (st : N) {struct fuel} : outcome (val * N) :=
     match fuel with
     | O => OutOfFuel
     | S f =>
       match a with
-      | ASet v => eval_v f v src st
+      | ASet v => eval_v f cx v src st
       | APtr v => match src with
                   | VNil => Done (old, st)
-                  | VPtr _ s => let* (r, st1) := eval_v f v s st in Done (VPtr st1 r, st1 + 1)
+                  | VPtr _ s => let* (r, st1) := eval_v f cx v s st in Done (VPtr st1 r, st1 + 1)
                   | _ => Stuck
                   end
       | ASrcPtr v => match src with
                      | VNil => Done (old, st)
-                     | VPtr _ s => eval_v f v s st
+                     | VPtr _ s => eval_v f cx v s st
                      | _ => Stuck
                      end
       | AList false elem a' =>
         match src with
         | VNil => Done (old, st)
         | VSlice _ vs =>
-          let* (rs, st1) := each_assign (eval_a f) a' vs (repeat (zero e ZFUEL elem) (length vs)) (st + 1) in
+          let* (rs, st1) := each_assign (eval_a f cx) 0 a' vs (repeat (zero e ZFUEL elem) (length vs)) (st + 1) in
           Done (VSlice st rs, st1)
         | _ => Stuck
         end
@@ -157,36 +239,57 @@ Section eval.
         match src with
         | VArr vs =>
           match old with
-          | VSlice id olds => let* (rs, st1) := each_assign (eval_a f) a' vs olds st in Done (VSlice id rs, st1)
-          | VNil => let* (_, st1) := each_assign (eval_a f) a' vs [] st in Done (VNil, st1)
+          | VSlice id olds => let* (rs, st1) := each_assign (eval_a f cx) 0 a' vs olds st in Done (VSlice id rs, st1)
+          | VNil => let* (_, st1) := each_assign (eval_a f cx) 0 a' vs [] st in Done (VNil, st1)
           | _ => Stuck
           end
         | _ => Stuck
         end
       | AMap k v => match src with
                     | VNil => Done (old, st)
-                    | VMap _ kvs => let* (rs, st1) := each_entry (eval_v f) k v kvs (st + 1) in Done (VMap st rs, st1)
+                    | VMap _ kvs => let* (rs, st1) := each_entry (eval_v f cx) k v kvs (st + 1) in Done (VMap st rs, st1)
                     | _ => Stuck
                     end
       | AStruct fs => match old with
-                      | VStruct olds => let* (rs, st1) := each_field (eval_a f) fs src olds st in Done (VStruct rs, st1)
+                      | VStruct olds => let* (rs, st1) := each_field (eval_v f cx) (eval_a f cx) fs src olds st in Done (VStruct rs, st1)
                       | _ => Stuck
                       end
       | AIfNotNil a' => match src with
                         | VNil => Done (old, st)
-                        | VPtr _ s => eval_a f a' s old st
+                        | VPtr _ s => eval_a f cx a' s old st
+                        | _ => Stuck
+                        end
+      | ADerefTgt a' => match old with
+                        | VPtr ad v => let* (r, st1) := eval_a f cx a' src v st in Done (VPtr ad r, st1)
+                        | VNil => Panicked        (* nil pointer dereference *)
                         | _ => Stuck
                         end
       end
     end.
 
-  (* run a (non-update) method of the table on a source value; addresses >= n0 are fresh *)
-  Definition run (fuel : nat) (m : N) (src : val) (n0 : N) : outcome (val * N) := eval_v fuel (PCall m) src n0.
+  (* run a declared (non-update) method on a source value and context values; addresses >= n0 are fresh *)
+  Definition run (fuel : nat) (m : N) (cx : ctxs) (src : val) (n0 : N) : outcome (val * N) :=
+    match nth_error M (N.to_nat m) with
+    | Some mt => match body_plan mt with
+                 | Some (p, wr) => match eval_v fuel cx p src n0 with
+                                   | Errored er => Errored (if wr then finalize (wrap_mode mt) er else er)
+                                   | o => o
+                                   end
+                 | None => Stuck
+                 end
+    | None => Stuck
+    end.
 
   (* run an update method: old = the struct the target pointer points to *)
-  Definition run_update (fuel : nat) (m : N) (src old : val) (n0 : N) : outcome (val * N) :=
+  Definition run_update (fuel : nat) (m : N) (cx : ctxs) (src old : val) (n0 : N) : outcome (val * N) :=
     match nth_error M (N.to_nat m) with
-    | Some mt => match g_body mt with Some (BUpd a) => eval_a fuel a src old n0 | _ => Stuck end
+    | Some mt => match g_body mt with
+                 | Some (BUpd a) => match eval_a fuel cx a src old n0 with
+                                    | Errored er => Errored (finalize (wrap_mode mt) er)
+                                    | o => o
+                                    end
+                 | _ => Stuck
+                 end
     | None => Stuck
     end.
 End eval.
